@@ -530,6 +530,11 @@ func (y *ydFunc) ruleYD1(c *Ctx, r *Report, rule string) {
 		}
 		if offender == nil {
 			reach := reachable(succs)
+			// `for err == nil && yield(x) { … }`: when the call was evaluated the operands to its left were true;
+			// a later test of the same variable, with no assignment to it in between, can only go one way
+			if facts := y.leftFacts(s); len(facts) > 0 && kind == "cond" {
+				reach = y.reachableUnder(succs, facts)
+			}
 			for b := range reach {
 				if len(siteIn[b]) > 0 {
 					if offender == nil || siteIn[b][0].call.Pos() < offender.call.Pos() {
@@ -731,12 +736,19 @@ func calleeOfExpr(info *types.Info, e ast.Expr) *types.Func {
 func rulePassAll(c *Ctx, r *Report, y *ydFunc, rule string) int {
 	info := y.f.pkg.TypesInfo
 	n := 0
+	delegCall := map[*ast.CallExpr]bool{}
+	for _, d := range y.delegs {
+		delegCall[d.call] = true
+	}
 	isYield := func(nd ast.Node) bool {
 		has := false
 		inspectNoLit(nd, func(m ast.Node) bool {
 			if call, ok := m.(*ast.CallExpr); ok {
 				if id, ok := ast.Unparen(call.Fun).(*ast.Ident); ok && info.Uses[id] == y.cb {
 					has = true
+				}
+				if delegCall[call] {
+					has = true // the item handed, with the callback, to a function that yields it
 				}
 			}
 			return true
@@ -768,6 +780,29 @@ func rulePassAll(c *Ctx, r *Report, y *ydFunc, rule string) int {
 		}
 		seen := map[*cfg.Block]bool{}
 		loops := false
+		// the record handed on later in the read's own block: nothing can come between
+		readIdx, yieldIdx := -1, -1
+		for i, nd := range rb.Nodes {
+			isRead := false
+			inspectNoLit(nd, func(m ast.Node) bool {
+				if call, ok := m.(*ast.CallExpr); ok {
+					if fo := calleeOfExpr(info, call); fo != nil && fo.Pkg() == y.f.pkg.Types && isRecordReader(fo) {
+						isRead = true
+					}
+				}
+				return true
+			})
+			if isRead && readIdx < 0 {
+				readIdx = i
+			}
+			if isYield(nd) && i > readIdx && readIdx >= 0 && yieldIdx < 0 {
+				yieldIdx = i
+			}
+		}
+		if yieldIdx > readIdx && readIdx >= 0 {
+			r.holds(rule, y.f.name, "every record read is yielded", c.pos(rb.Nodes[readIdx].Pos()), "the record is handed on in the block that read it: every decoded record (or its error) reaches the consumer")
+			continue
+		}
 		var dfs func(b *cfg.Block)
 		dfs = func(b *cfg.Block) {
 			if seen[b] || av[b] {
@@ -864,6 +899,19 @@ func rulesPassAllFor(c *Ctx, r *Report, rel string, floor int) {
 		}
 		r.analysed(y.f.name)
 		n += rulePassAll(c, r, y, "PASS-ALL")
+		// a literal handed to an iterator as its loop body obtains one item per call: it must hand it on
+		for _, ly := range y.lits {
+			var sb []*cfg.Block
+			for _, s := range append(append([]*cbSite{}, ly.sites...), ly.delegs...) {
+				sb = append(sb, s.block)
+			}
+			if len(ly.g.Blocks) == 0 {
+				continue
+			}
+			n++
+			r.check(!cfgReachExitAvoiding(ly.g.Blocks[0], sb), "PASS-ALL", ly.f.name, "every item received is yielded", c.pos(ly.f.node.Pos()),
+				"every path through the loop body passes a callback call: each item of the inner iterator is handed on", "a path through the loop body returns without a callback call: some items are silently dropped")
+		}
 	}
 	r.floor("PASS-ALL", n, floor, "iterator layers between read() and the consumer in "+rel)
 }
@@ -896,6 +944,9 @@ func containsStreamRead(info *types.Info, n ast.Node) bool {
 			if fo := calleeOfExpr(info, call); fo != nil {
 				if _, ok := streamSources[fo.FullName()]; ok {
 					found = true
+				}
+				if extraStreamFunc != nil && extraStreamFunc(fo) {
+					found = true // a helper of the module that reads the stream and hands its error on
 				}
 			}
 		}
@@ -1077,4 +1128,209 @@ func (y *ydFunc) reachWithFlag(s *cbSite, obj types.Object, val bool, siteIn map
 	}
 	walk(s.block, s.idx+1, true)
 	return offender, true
+}
+
+// nilFact: variable obj is (isNil) / is not nil.
+type nilFact struct {
+	obj   types.Object
+	isNil bool
+}
+
+// nilTest: e is `x == nil` / `x != nil` for an identifier x.
+func nilTest(info *types.Info, e ast.Expr) (types.Object, bool, bool) {
+	be, ok := ast.Unparen(e).(*ast.BinaryExpr)
+	if !ok || (be.Op != token.EQL && be.Op != token.NEQ) {
+		return nil, false, false
+	}
+	var id *ast.Ident
+	switch {
+	case isNilIdent(info, be.Y):
+		id, _ = ast.Unparen(be.X).(*ast.Ident)
+	case isNilIdent(info, be.X):
+		id, _ = ast.Unparen(be.Y).(*ast.Ident)
+	}
+	if id == nil || info.ObjectOf(id) == nil {
+		return nil, false, false
+	}
+	return info.ObjectOf(id), be.Op == token.EQL, true
+}
+
+// leftFacts: the call site is the right-most operand chain of `a && b && call(...)` in a condition: the nil tests
+// among the operands to its left held when it was evaluated.
+func (y *ydFunc) leftFacts(s *cbSite) []nilFact {
+	info := y.f.pkg.TypesInfo
+	e, ok := s.block.Nodes[s.idx].(ast.Expr)
+	if !ok {
+		return nil
+	}
+	var out []nilFact
+	var walk func(e ast.Expr) bool // returns whether the call is inside e
+	walk = func(e ast.Expr) bool {
+		e = ast.Unparen(e)
+		if e == ast.Expr(s.call) {
+			return true
+		}
+		if be, ok := e.(*ast.BinaryExpr); ok && be.Op == token.LAND {
+			if walk(be.Y) {
+				// be.X was true
+				var conj func(x ast.Expr)
+				conj = func(x ast.Expr) {
+					x = ast.Unparen(x)
+					if b2, ok := x.(*ast.BinaryExpr); ok && b2.Op == token.LAND {
+						conj(b2.X)
+						conj(b2.Y)
+						return
+					}
+					if obj, isNil, ok := nilTest(info, x); ok {
+						out = append(out, nilFact{obj, isNil})
+					}
+				}
+				conj(be.X)
+				return true
+			}
+			return walk(be.X)
+		}
+		return false
+	}
+	if !walk(e) {
+		return nil
+	}
+	return out
+}
+
+// reachableUnder: blocks reachable from the given ones while the facts hold: a fact dies at an assignment to its
+// variable (or when its address is taken); a condition that tests a live fact's variable against nil goes one way.
+func (y *ydFunc) reachableUnder(from []*cfg.Block, facts []nilFact) map[*cfg.Block]bool {
+	info := y.f.pkg.TypesInfo
+	type state struct {
+		b    *cfg.Block
+		mask int
+	}
+	seen := map[state]bool{}
+	out := map[*cfg.Block]bool{}
+	kills := func(nd ast.Node, obj types.Object) bool {
+		killed := false
+		ast.Inspect(nd, func(m ast.Node) bool {
+			switch x := m.(type) {
+			case *ast.AssignStmt:
+				for _, l := range x.Lhs {
+					if id, ok := ast.Unparen(l).(*ast.Ident); ok && info.ObjectOf(id) == obj {
+						killed = true
+					}
+				}
+			case *ast.UnaryExpr:
+				if x.Op == token.AND {
+					if id, ok := ast.Unparen(x.X).(*ast.Ident); ok && info.ObjectOf(id) == obj {
+						killed = true
+					}
+				}
+			case *ast.RangeStmt:
+				for _, l := range []ast.Expr{x.Key, x.Value} {
+					if l != nil {
+						if id, ok := ast.Unparen(l).(*ast.Ident); ok && info.ObjectOf(id) == obj {
+							killed = true
+						}
+					}
+				}
+			case *ast.FuncLit:
+				// a literal that mentions the variable may assign it
+				ast.Inspect(x.Body, func(k ast.Node) bool {
+					if id, ok := k.(*ast.Ident); ok && info.ObjectOf(id) == obj {
+						killed = true
+					}
+					return true
+				})
+				return false
+			}
+			return true
+		})
+		return killed
+	}
+	var eval func(e ast.Expr, mask int) int
+	eval = func(e ast.Expr, mask int) int {
+		e = ast.Unparen(e)
+		if obj, isNil, ok := nilTest(info, e); ok {
+			for i, f := range facts {
+				if mask&(1<<i) != 0 && f.obj == obj {
+					if f.isNil == isNil {
+						return mayT
+					}
+					return mayF
+				}
+			}
+			return mayT | mayF
+		}
+		switch x := e.(type) {
+		case *ast.UnaryExpr:
+			if x.Op == token.NOT {
+				o := eval(x.X, mask)
+				n := 0
+				if o&mayT != 0 {
+					n |= mayF
+				}
+				if o&mayF != 0 {
+					n |= mayT
+				}
+				return n
+			}
+		case *ast.BinaryExpr:
+			if x.Op == token.LAND {
+				l := eval(x.X, mask)
+				if l == mayF {
+					return mayF
+				}
+				r := eval(x.Y, mask)
+				if l == mayT {
+					return r
+				}
+				return r | mayF
+			}
+			if x.Op == token.LOR {
+				l := eval(x.X, mask)
+				if l == mayT {
+					return mayT
+				}
+				r := eval(x.Y, mask)
+				if l == mayF {
+					return r
+				}
+				return r | mayT
+			}
+		}
+		return mayT | mayF
+	}
+	var dfs func(b *cfg.Block, mask int)
+	dfs = func(b *cfg.Block, mask int) {
+		if seen[state{b, mask}] {
+			return
+		}
+		seen[state{b, mask}] = true
+		out[b] = true
+		for _, nd := range b.Nodes {
+			for i, f := range facts {
+				if mask&(1<<i) != 0 && kills(nd, f.obj) {
+					mask &^= 1 << i
+				}
+			}
+		}
+		if len(b.Succs) == 2 && len(b.Nodes) > 0 {
+			if e, ok := b.Nodes[len(b.Nodes)-1].(ast.Expr); ok {
+				o := eval(e, mask)
+				if o&mayT != 0 {
+					dfs(b.Succs[0], mask)
+				}
+				if o&mayF != 0 {
+					dfs(b.Succs[1], mask)
+				}
+				return
+			}
+		}
+		for _, su := range b.Succs {
+			dfs(su, mask)
+		}
+	}
+	for _, b := range from {
+		dfs(b, 1<<len(facts)-1)
+	}
+	return out
 }
